@@ -160,10 +160,13 @@ impl<A: TokCode, B> TokCode for (A, B) {
 }
 
 pub trait SymTok: Copy + PartialEq + TokCode + 'static {
+    /// tokens are bytes (text properties are stated for ASCII text only on byte inputs)
+    const BYTE: bool = false;
     fn fresh() -> Self;
     fn zero() -> Self;
 }
 impl SymTok for u8 {
+    const BYTE: bool = true;
     fn fresh() -> Self {
         ch::any_u8()
     }
@@ -1255,5 +1258,15 @@ where
             1 => Ok(None),
             _ => Err(()),
         }
+    }
+}
+
+// ---------------------------------------------------------------------------------------------
+// The symbolic input as a text input (the trait is sealed; the harness is compiled in-crate).
+// ---------------------------------------------------------------------------------------------
+impl<T> Sealed for SymIn<T> {}
+impl<T: SymTok + crate::text::Char> StrInput<'static> for SymIn<T> {
+    fn stringify(_slice: SymSlice) -> alloc::string::String {
+        alloc::string::String::new()
     }
 }
